@@ -97,10 +97,7 @@ Witnesses ==
   { [tag |-> "attrListKeyedByQName",
      ss  |-> WithBody(NoCtx, <<In(Lre("", <<>>, <<>>, <<>>, <<>>), <<Att("p", TRUE, V, "1"), Att("q", TRUE, V, "2")>>)>>)],
     [tag |-> "xmlnsPrefixOnElement", ss |-> WithBody(NoCtx, <<Elt("xmlns", TRUE, U)>>)],
-    [tag |-> "attrDeclarationSkipped",
-     ss  |-> WithBody([NoCtx EXCEPT !.nsd = <<<<"p", U>>>>], <<In(Elt("q", TRUE, U), <<Att("p", FALSE, "", "1")>>)>>)],
     [tag |-> "emptyNamespaceAttributeIgnored", ss |-> WithBody([NoCtx EXCEPT !.nsd = <<<<"p", U>>>>], <<Elt("p", TRUE, "")>>)],
-    [tag |-> "strippedPrefixUndeclared", ss |-> WithBody(NoCtx, <<Elt("z", TRUE, "")>>)],
     [tag |-> "xmlPrefixWithOtherNamespace",
      ss  |-> WithBody(NoCtx, <<In(Lre("", <<>>, <<>>, <<>>, <<>>), <<[i |-> "attribute", p |-> "xml", l |-> "lang", hasNs |-> TRUE, ns |-> U, nsd |-> <<>>, v |-> "1"]>>)>>)],
     [tag |-> "copiedAttributeNotFixedUp",
